@@ -90,6 +90,11 @@ class ArrayType(StandardEncodeMixin, Type):
 
         while (offset - start_offset) < length:
             decoded_element, offset = self.element_type.decode(data, offset)
+            # Invalid tag: the element did not consume anything.
+            ber.check_decode_error(self.element_type,
+                                   decoded_element,
+                                   data,
+                                   offset)
             decoded.append(decoded_element)
 
         return decoded, offset
